@@ -49,6 +49,7 @@ func find(t *rt.Thread, c *rt.GoCont) (rt.Cont, error) {
 		if i == -1 {
 			t.Push1(next, rt.NilValue)
 		} else {
+			i += si // indices are relative to the subject, not to init
 			t.Push1(next, rt.IntValue(int64(i+1)))
 			t.Push1(next, rt.IntValue(int64(i+len(ptn))))
 		}
